@@ -56,6 +56,14 @@ type NetPlan struct {
 	Faults   []NetFault `json:"faults,omitempty"`
 	Acts     []ByzAct   `json:"acts,omitempty"`
 	Txs      []TxOp     `json:"txs,omitempty"` // client transactions injected over time
+	// GarblePct: percent of block messages whose header sup links are tampered with in flight by a
+	// relay (garbage in unused and validator slots; neither the block hash nor the proposer's
+	// signature covers the sup links)
+	GarblePct int `json:"garble_pct,omitempty"`
+	// Isolate: node (Isolate-1) is cut off from slot IsoFrom to IsoTo and keeps proposing on its own branch
+	Isolate int `json:"isolate,omitempty"`
+	IsoFrom int `json:"iso_from,omitempty"`
+	IsoTo   int `json:"iso_to,omitempty"`
 }
 
 func genNet(rt *rapid.T) any {
@@ -76,6 +84,14 @@ func genNet(rt *rapid.T) any {
 		p.MaxDelay = rapid.IntRange(100, 15000).Draw(rt, "delay")
 		p.DropPct = rapid.IntRange(0, 25).Draw(rt, "drop")
 		p.DupPct = rapid.IntRange(0, 20).Draw(rt, "dup")
+	}
+	if rapid.IntRange(0, 2).Draw(rt, "garbleq") == 2 {
+		p.GarblePct = rapid.IntRange(5, 40).Draw(rt, "garble")
+	}
+	if rapid.IntRange(0, 3).Draw(rt, "isoq") == 3 {
+		p.Isolate = 1 + rapid.IntRange(0, 3).Draw(rt, "iso")
+		p.IsoFrom = rapid.IntRange(1, p.Slots/3+1).Draw(rt, "isofrom")
+		p.IsoTo = p.IsoFrom + rapid.IntRange(p.Slots/3, p.Slots).Draw(rt, "isolen")
 	}
 	nt := rapid.IntRange(8, 48).Draw(rt, "ntape")
 	for i := 0; i < nt; i++ {
@@ -208,6 +224,9 @@ func (nt *Net) send(m *netMsg) {
 		r.Count("fault.drop", 1)
 		return
 	}
+	if m.block != nil && nt.P.GarblePct > 0 && nt.draw(100) < nt.P.GarblePct {
+		m = nt.garble(m)
+	}
 	copies := 1
 	if nt.P.DupPct > 0 && nt.draw(100) < nt.P.DupPct {
 		copies = 2
@@ -227,6 +246,52 @@ func (nt *Net) send(m *netMsg) {
 		cp.at = nowMs() + d
 		heap.Push(&nt.q, &cp)
 	}
+}
+
+// garble returns a copy of a block message whose header sup links were tampered with in flight.
+func (nt *Net) garble(m *netMsg) *netMsg {
+	b := copyBlock(m.block)
+	junk := func(n int) []byte {
+		out := make([]byte, 64)
+		for i := range out {
+			out[i] = byte(nt.draw(256))
+		}
+		return out
+	}
+	kind := nt.draw(3)
+	switch {
+	case len(b.SupLinks) > 0 && kind == 0:
+		// garbage in the slots no validator owns
+		for i := nt.W.Cfg.Validators; i < len(b.SupLinks[0].Signatures); i++ {
+			b.SupLinks[0].Signatures[i] = junk(i)
+		}
+	case len(b.SupLinks) > 0 && kind == 1:
+		// garbage in every empty slot, validator slots included
+		for i := range b.SupLinks[0].Signatures {
+			if len(b.SupLinks[0].Signatures[i]) == 0 {
+				b.SupLinks[0].Signatures[i] = junk(i)
+			}
+		}
+	default:
+		// an extra link from the block's nearest checkpoint ancestor, all slots garbage
+		st := nt.W.Tree.Nodes[b.Hash()]
+		if st == nil || st.Parent == nil {
+			return m
+		}
+		src := st.Parent
+		for src.Height%nt.W.P.E != 0 {
+			src = src.Parent
+		}
+		sl := &types.SupLink{SourceHeight: src.Height, SourceHash: src.Hash}
+		for i := range sl.Signatures {
+			sl.Signatures[i] = junk(i)
+		}
+		b.SupLinks = append(b.SupLinks, sl)
+	}
+	nt.W.R.Count("fault.header_suplinks_tampered", 1)
+	cp := *m
+	cp.block = b
+	return &cp
 }
 
 func (nt *Net) broadcastBlock(from int, b *types.Block) {
@@ -903,6 +968,23 @@ func RunNet(t *testing.T, p *NetPlan, r *simkit.Run, or NetOracles) {
 				nt.checkAll(or, fmt.Sprintf("delivery at slot %d", slot))
 			}
 			SleepUntilMs(ts)
+			if p.Isolate > 0 && honest > 1 {
+				iso := (p.Isolate - 1) % honest
+				if slot == p.IsoFrom {
+					for i := range nt.group {
+						nt.group[i] = 0
+					}
+					nt.group[iso] = 1
+					r.Count("fault.isolate_node", 1)
+					r.Tracef("slot %d: node%d isolated", slot, iso)
+				} else if slot == p.IsoTo {
+					for i := range nt.group {
+						nt.group[i] = 0
+					}
+					r.Count("fault.heal", 1)
+					r.Tracef("slot %d: node%d rejoins", slot, iso)
+				}
+			}
 			for _, f := range p.Faults {
 				if f.Slot != slot {
 					continue
@@ -999,7 +1081,7 @@ func specNet(prop string, or NetOracles, rule string) simkit.Spec {
 			" Non-trivial = at least one checkpoint beyond genesis was finalized; distinct = hash of the event trace",
 		Components: nodeComponents,
 		FaultKinds: []string{"fault.drop", "fault.duplicate", "fault.delay_over_a_slot", "fault.partition", "fault.partition_drop", "fault.heal", "fault.restart",
-			"fault.byz_equivocating_block", "fault.byz_double_vote", "fault.byz_surround_vote", "fault.replayed_old_vote", "fault.garbage_signature_vote", "fault.nonvalidator_vote"},
+			"fault.header_suplinks_tampered", "fault.isolate_node", "fault.byz_equivocating_block", "fault.byz_double_vote", "fault.byz_surround_vote", "fault.replayed_old_vote", "fault.garbage_signature_vote", "fault.nonvalidator_vote"},
 		Probes:      []string{"probe.finalized_checkpoints", "probe.justified_checked", "votes.signed_by_honest", "net.orphan_parent_requested"},
 		Assumptions: []string{"fault bound: at most floor((V-1)/3) Byzantine validators, i.e. one of four and none otherwise", "gossip policy is a stub: every message goes to every connected node subject to the drawn faults; TCP/MConnection/peer discovery are not simulated"},
 	}
